@@ -1,6 +1,7 @@
 package main
 
 import (
+	"os"
 	"fmt"
 	"go/constant"
 	"go/token"
@@ -101,6 +102,9 @@ type Interp struct {
 	ufSeq    int
 
 	concrete map[string]*big.Int // concrete mode: supplied nondet values
+	models   []*cachedModel
+	fixedMask uint64
+	substMemo map[int]*Term
 
 	ob *Obligation
 	r  *ObResult
@@ -141,12 +145,13 @@ func (in *Interp) assume(c *Term) {
 	in.pc = append(in.pc, c)
 	in.pcHash = in.pcHash*1099511628211 + uint64(c.id) + 1
 	in.pcSet[c.id] = true
+	in.filterModels(c)
 	// x == const on the path condition: later uses of x fold to the constant
 	if c.op == OpEq && c.args[0].W > 0 {
 		if c.args[1].IsConst() && !c.args[0].IsConst() {
-			in.fixed[c.args[0].id] = c.args[1]
+			in.fix(c.args[0], c.args[1])
 		} else if c.args[0].IsConst() && !c.args[1].IsConst() {
-			in.fixed[c.args[1].id] = c.args[0]
+			in.fix(c.args[1], c.args[0])
 		}
 	}
 }
@@ -161,8 +166,114 @@ func (in *Interp) feasible(c *Term) SatResult {
 	if in.concrete != nil {
 		panic(pathEnd{"unsupported", "symbolic query in concrete mode: " + c.String()})
 	}
+	if in.modelSays(c) {
+		in.r.CacheHits++
+		return Sat
+	}
 	in.r.FeasQueries++
-	return in.sol.Check(in.pc, c)
+	res := in.sol.Check(in.pc, c)
+	if res == Sat {
+		in.learnModel()
+	}
+	return res
+}
+
+// ---------------------------------------------------------------------------
+// model cache: total assignments (missing variable = 0) known, by evaluation,
+// to satisfy every conjunct of the current path condition. A cached model that
+// also satisfies c answers "is pc and c satisfiable" with Sat without a solver
+// call; Unsat is only ever concluded by the solver.
+
+var traceQ = os.Getenv("VERIF_TRACE") != ""
+
+type cachedModel struct {
+	m    map[string]*big.Int
+	memo map[int]*big.Int
+}
+
+const modelPoolMax = 48
+
+func (in *Interp) evalTrue(cm *cachedModel, c *Term) (ok bool) {
+	defer func() {
+		if r := recover(); r != nil {
+			if _, isEnd := r.(pathEnd); isEnd {
+				panic(r)
+			}
+			ok = false
+		}
+	}()
+	return in.ts.Eval(c, cm.m, cm.memo).Sign() != 0
+}
+
+func (in *Interp) filterModels(c *Term) {
+	if len(in.models) == 0 {
+		return
+	}
+	k := 0
+	for _, cm := range in.models {
+		if in.evalTrue(cm, c) {
+			in.models[k] = cm
+			k++
+		}
+	}
+	in.models = in.models[:k]
+}
+
+func (in *Interp) modelSays(c *Term) bool {
+	for _, cm := range in.models {
+		if in.evalTrue(cm, c) {
+			return true
+		}
+	}
+	return false
+}
+
+func (in *Interp) evalVal(cm *cachedModel, t *Term) (v *big.Int, ok bool) {
+	defer func() {
+		if r := recover(); r != nil {
+			if _, isEnd := r.(pathEnd); isEnd {
+				panic(r)
+			}
+			v, ok = nil, false
+		}
+	}()
+	return in.ts.Eval(t, cm.m, cm.memo), true
+}
+
+// learnModelExtra is learnModel for a query that carried an extra conjunct.
+func (in *Interp) learnModelExtra(extra *Term) *cachedModel {
+	n := len(in.models)
+	in.learnModel()
+	if len(in.models) > n {
+		return in.models[len(in.models)-1]
+	}
+	return nil
+}
+
+// learnModel stores the model of the last Sat query (which included the whole
+// path condition) in the session pool and in the active set of this path.
+func (in *Interp) learnModel() {
+	if in.concrete != nil || len(in.vars) == 0 {
+		return
+	}
+	m := in.sol.Model(in.vars)
+	if len(m) == 0 {
+		return
+	}
+	cm := &cachedModel{m: m, memo: map[int]*big.Int{}}
+	// trust nothing: keep it only if it evaluates the path condition to true
+	for _, c := range in.pc {
+		if !in.evalTrue(cm, c) {
+			return
+		}
+	}
+	in.models = append(in.models, cm)
+	s := in.sess
+	if len(s.modelPool) >= modelPoolMax {
+		copy(s.modelPool, s.modelPool[1:])
+		s.modelPool = s.modelPool[:len(s.modelPool)-1]
+	}
+	s.modelPool = append(s.modelPool, cm)
 }
 
 // branch decides a symbolic condition for this path, recording a decision.
@@ -196,6 +307,9 @@ func (in *Interp) branch(c *Term) bool {
 		return d.alts[d.cur] == 1
 	}
 	var alts []int64
+	if traceQ {
+		fmt.Fprintf(os.Stderr, "  branch %s @ %s\n", trunc(c.String(), 160), in.site())
+	}
 	rt := in.feasible(c)
 	if rt != Unsat {
 		alts = append(alts, 1)
@@ -225,6 +339,50 @@ func (in *Interp) branch(c *Term) bool {
 	return alts[0] == 1
 }
 
+// fix records that t equals the constant c under the path condition. When t
+// is a variable, every later register read substitutes it (subst).
+func (in *Interp) fix(t, c *Term) {
+	in.fixed[t.id] = c
+	if t.op == OpVar {
+		in.fixedMask |= t.vmask
+		in.substMemo = nil
+	}
+}
+
+// subst replaces variables fixed by the path condition with their constants
+// (the result is equal to t under the path condition).
+func (in *Interp) subst(t *Term) *Term {
+	if t.vmask&in.fixedMask == 0 || t.op == OpConst {
+		return t
+	}
+	if t.op == OpVar {
+		if c, ok := in.fixed[t.id]; ok {
+			return c
+		}
+		return t
+	}
+	if r, ok := in.substMemo[t.id]; ok {
+		return r
+	}
+	changed := false
+	args := make([]*Term, len(t.args))
+	for i, a := range t.args {
+		args[i] = in.subst(a)
+		if args[i] != a {
+			changed = true
+		}
+	}
+	r := t
+	if changed {
+		r = in.ts.rebuild(t, args)
+	}
+	if in.substMemo == nil {
+		in.substMemo = map[int]*Term{}
+	}
+	in.substMemo[t.id] = r
+	return r
+}
+
 // note records a fact implied by the path condition: it is remembered for
 // syntactic reuse but not added to the solver's assertion stack.
 func (in *Interp) note(c *Term) {
@@ -234,9 +392,9 @@ func (in *Interp) note(c *Term) {
 	in.pcSet[c.id] = true
 	if c.op == OpEq && c.args[0].W > 0 {
 		if c.args[1].IsConst() && !c.args[0].IsConst() {
-			in.fixed[c.args[0].id] = c.args[1]
+			in.fix(c.args[0], c.args[1])
 		} else if c.args[0].IsConst() && !c.args[1].IsConst() {
-			in.fixed[c.args[1].id] = c.args[0]
+			in.fix(c.args[1], c.args[0])
 		}
 	}
 }
@@ -275,10 +433,27 @@ func (in *Interp) concretize(t *Term, max int, what string) int64 {
 	}
 	var alts []int64
 	block := in.ts.True
-	for {
-		if in.concrete != nil {
-			panic(pathEnd{"unsupported", "symbolic value in concrete mode: " + t.String()})
+	if traceQ {
+		fmt.Fprintf(os.Stderr, "  concretize %s (%s) @ %s\n", trunc(t.String(), 160), what, in.site())
+	}
+	if in.concrete != nil {
+		panic(pathEnd{"unsupported", "symbolic value in concrete mode: " + t.String()})
+	}
+	// values taken by t in cached models of the path condition are feasible
+	seenVal := map[string]bool{}
+	for _, cm := range in.models {
+		v, ok := in.evalVal(cm, t)
+		if !ok || seenVal[v.String()] {
+			continue
 		}
+		seenVal[v.String()] = true
+		alts = append(alts, signedOf(v, t.W).Int64())
+		if len(alts) > max {
+			panic(pathEnd{"unwind", fmt.Sprintf("more than %d values for %s", max, what)})
+		}
+		block = in.ts.And(block, in.ts.Ne(t, in.ts.Const(t.W, v)))
+	}
+	for {
 		var extra *Term
 		if !block.IsTrue() {
 			extra = block
@@ -291,8 +466,14 @@ func (in *Interp) concretize(t *Term, max int, what string) int64 {
 		if r == Unknown {
 			panic(pathEnd{"unknown", "solver unknown while concretising " + what})
 		}
-		m := in.sol.Model(termVars(t))
-		v := in.ts.Eval(t, m, map[int]*big.Int{})
+		var v *big.Int
+		if cm := in.learnModelExtra(block); cm != nil {
+			v, _ = in.evalVal(cm, t)
+		}
+		if v == nil {
+			m := in.sol.Model(termVars(t))
+			v = in.ts.Eval(t, m, map[int]*big.Int{})
+		}
 		sv := signedOf(v, t.W).Int64()
 		alts = append(alts, sv)
 		if len(alts) > max {
@@ -517,6 +698,9 @@ func (in *Interp) get(fr *Frame, v ssa.Value) Value {
 		if t, ok := r.(*Term); ok && t.op != OpConst {
 			if c, ok := in.fixed[t.id]; ok {
 				return c
+			}
+			if t.vmask&in.fixedMask != 0 {
+				return in.subst(t)
 			}
 		}
 	}
